@@ -121,7 +121,7 @@ func (v *srv) goodPeer(what string) *net.VConn {
 	kit.Quiesce()
 	if v.attached != before+1 {
 		// after a failed handshake the accept loop pauses for 10 ms before it accepts again
-		kit.Sleep(50 * time.Millisecond)
+		kit.Sleep(2 * time.Second)
 		kit.Quiesce()
 	}
 	if v.attached != before+1 {
